@@ -208,6 +208,9 @@ def run_kani(crate_dir, unit, h, log_dir, playback=False):
     env = dict(ENV)
     rf = env.get("RUSTFLAGS", "")
     cfgs = list(unit.get("cfg", [])) + list(h.get("cfg", []))
+    if playback:
+        # Kani prints one playback test per harness run and prefers satisfied covers: switch the covers off
+        cfgs.append("verif_nocover")
     for c in cfgs:
         rf += f" --cfg {c}"
     if rf:
